@@ -54,8 +54,11 @@
   Neither corner is reachable from IDL-generated schemas (the IDL resolves every type name, array
   keys are not identifiers, and a dictionary belongs to one struct type).
 
-  `downgrade` concerns the Go WRITER (keepFieldMask), which has no Lean model: run-only.  The
-  interoperability statement of C04 for the Go code stays DECIDED pair by pair by the
+  `downgrade` (a B writer asked to write in schema A: keepFieldMask, fewer presence bits, fewer
+  oneof alternatives) is modelled and proved at the record level in Props/C04Down.lean
+  (`downgrade_records`: the encoder `SpecEnc.encodeNode B` on A's tree emits byte for byte the
+  ordinary A encoding of the history restricted to A).  That the Go writer IS that model, and the
+  interoperability statement of C04 for the Go code, stay DECIDED pair by pair by the
   cross-package runs of h_gen (code generated for A and B, both directions, Lean decoder as
   oracle on every stream, genuine and crafted descriptors).
 -/
